@@ -44,8 +44,8 @@ pub struct CallSpec {
 
 pub fn call_spec(kind: CK, id: u32) -> CallSpec {
     let v = match kind {
-        CK::P => json!({"method": "t.Plain", "parameters": {"n": id, "tag": format!("tag-{id}")}}),
-        CK::O => json!({"method": "t.Plain", "parameters": {"n": id, "tag": format!("tag-{id}")}, "oneway": true}),
+        CK::P => json!({"method": "t.Plain", "parameters": {"n": id, "tag": format!("t\u{e4}g-{id}")}}),
+        CK::O => json!({"method": "t.Plain", "parameters": {"n": id, "tag": format!("t\u{e4}g-{id}")}, "oneway": true}),
         CK::F => json!({"method": "t.Fail", "parameters": {"n": id}}),
         CK::Of => json!({"oneway": true, "method": "t.Fail", "parameters": {"n": id}}),
         CK::W(..) => json!({"method": "t.Watch", "parameters": {"k": id}, "more": true}),
@@ -66,7 +66,7 @@ fn norm(mut v: Value) -> Value {
 
 fn expected_reply(c: &CallSpec) -> Option<Value> {
     match c.kind {
-        CK::P => Some(json!({"parameters": {"n": c.id, "tag": format!("tag-{}", c.id)}})),
+        CK::P => Some(json!({"parameters": {"n": c.id, "tag": format!("t\u{e4}g-{}", c.id)}})),
         CK::F => Some(json!({"error": "t.Failed", "parameters": {"n": c.id}})),
         CK::O | CK::Of | CK::W(..) | CK::Ow => None,
     }
